@@ -250,6 +250,278 @@ M('C10', 'header-sep', TY, "headers=''.join('{key}: {val}\\n'.format(key=key, va
 T('C10', 'twin-crc-hex', TY, "        return crc & 0xFFFFFF", "        return crc & 16777215")
 T('C10', 'twin-payload-var', TY, "        payload = base64.b64encode(self.__bytes__()).decode('latin-1')\n        payload = '\\n'.join(payload[i:(i + 64)] for i in range(0, len(payload), 64))", "        b64 = base64.b64encode(self.__bytes__()).decode('latin-1')\n        payload = '\\n'.join(b64[i:(i + 64)] for i in range(0, len(b64), 64))")
 
+# ---- C10 hardening: twins (every family a rule was made blind to) and new mutants (one or more per rewritten rule)
+_CRC_BODY = """        crc = Armorable.__crc24_init
+
+        if not isinstance(data, bytearray):
+            data = iter(data)
+
+        for b in data:
+            crc ^= b << 16
+
+            for i in range(8):
+                crc <<= 1
+                if crc & 0x1000000:
+                    crc ^= Armorable.__crc24_poly
+
+        return crc & 0xFFFFFF
+"""
+T('C10', 'twin-crc-renamed-hoisted', TY, _CRC_BODY, """        poly = Armorable.__crc24_poly
+        carry = 0x1000000
+        mask = 0xFFFFFF
+
+        if isinstance(data, bytearray):
+            octets = data
+        else:
+            octets = iter(data)
+
+        register = Armorable.__crc24_init
+        for octet in octets:
+            register = register ^ (octet << 16)
+
+            for _ in range(8):
+                register = register << 1
+                if (register & carry) != 0:
+                    register = register ^ poly
+
+        return register & mask
+""")
+T('C10', 'twin-crc-literals-inline', TY, _CRC_BODY, """        acc = 0xB704CE
+        for octet in bytearray(data):
+            acc ^= octet << 16
+            for _round in range(0, 8):
+                acc <<= 1
+                if acc & (1 << 24):
+                    acc ^= 0x1864CFB
+        return acc & ((1 << 24) - 1)
+""")
+T('C10', 'twin-crc-test-before-shift', TY, _CRC_BODY, """        crc = Armorable.__crc24_init
+        for b in (data if isinstance(data, bytearray) else iter(data)):
+            crc ^= b << 16
+            for i in range(8):
+                # bit 23 before the shift is bit 24 after it
+                crc = (crc << 1) ^ (Armorable.__crc24_poly if crc & 0x800000 else 0)
+        return crc & 0xFFFFFF
+""")
+T('C10', 'twin-crc-mask-each-round', TY, _CRC_BODY, """        crc = Armorable.__crc24_init
+
+        if not isinstance(data, bytearray):
+            data = iter(data)
+
+        for b in data:
+            crc ^= b << 16
+
+            for i in range(8):
+                crc <<= 1
+                if crc & 0x1000000:
+                    crc ^= Armorable.__crc24_poly
+                crc &= 0xFFFFFF
+
+        return crc
+""")
+M('C10', 'crc-wrong-overflow-bit', TY, "                if crc & 0x1000000:", "                if crc & 0x800000:", 'C10.1')
+M('C10', 'crc-xor-always', TY, "                if crc & 0x1000000:\n                    crc ^= Armorable.__crc24_poly", "                crc ^= Armorable.__crc24_poly", 'C10.1')
+M('C10', 'crc-or-instead-of-xor', TY, "            crc ^= b << 16", "            crc |= b << 16", 'C10.1')
+M('C10', 'crc-rounds-9', TY, "            for i in range(8):\n                crc <<= 1", "            for i in range(9):\n                crc <<= 1", 'C10.1')
+M('C10', 'crc-mask-23-bits', TY, "        return crc & 0xFFFFFF", "        return crc & 0x7FFFFF", 'C10.1')
+M('C10', 'crc-poly-is-init', TY, "                    crc ^= Armorable.__crc24_poly", "                    crc ^= Armorable.__crc24_init", 'C10.1')
+M('C10', 'crc-shift-after-test', TY, "                crc <<= 1\n                if crc & 0x1000000:\n                    crc ^= Armorable.__crc24_poly", "                if crc & 0x1000000:\n                    crc ^= Armorable.__crc24_poly\n                crc <<= 1", 'C10.1')
+M('C10', 'crc-skips-first-octet-of-bytes', TY, "            data = iter(data)", "            data = iter(data[1:])", 'C10.1')
+
+_STR_BODY = """        payload = base64.b64encode(self.__bytes__()).decode('latin-1')
+        payload = '\\n'.join(payload[i:(i + 64)] for i in range(0, len(payload), 64))
+
+        return self.__armor_fmt.format(
+            block_type=self.magic,
+            headers=''.join('{key}: {val}\\n'.format(key=key, val=val) for key, val in self.ascii_headers.items()),
+            packet=payload,
+            crc=base64.b64encode(PGPObject.int_to_bytes(self.crc24(self.__bytes__()), 3)).decode('latin-1')
+        )
+"""
+T('C10', 'twin-str-helpers-locals', TY, "    def __str__(self):\n" + _STR_BODY, """    @staticmethod
+    def _radix64(octets):
+        return base64.b64encode(octets).decode('latin-1')
+
+    def _armor_header_lines(self):
+        lines = []
+        for key, val in self.ascii_headers.items():
+            lines.append('{key}: {val}\\n'.format(key=key, val=val))
+        return ''.join(lines)
+
+    def __str__(self):
+        width = 64
+        encoded = self._radix64(self.__bytes__())
+        rows = [encoded[start:(start + width)] for start in range(0, len(encoded), width)]
+        payload = '\\n'.join(rows)
+
+        block_type = self.magic
+        headers = self._armor_header_lines()
+        checksum = PGPObject.int_to_bytes(self.crc24(self.__bytes__()), 3)
+
+        return self.__armor_fmt.format(
+            block_type=block_type,
+            headers=headers,
+            packet=payload,
+            crc=self._radix64(checksum)
+        )
+""")
+T('C10', 'twin-str-concatenation', TY, _STR_BODY, """        octets = self.__bytes__()
+        text = str(base64.b64encode(octets), 'ascii')
+        lines = []
+        for off in range(0, len(text), 64):
+            lines.append(text[off:off + 64])
+        out = '-----BEGIN PGP ' + self.magic + '-----\\n'
+        out += ''.join(key + ': ' + val + '\\n' for key, val in self.ascii_headers.items())
+        out += '\\n' + '\\n'.join(lines) + '\\n'
+        out += '=' + base64.b64encode(PGPObject.int_to_bytes(Armorable.crc24(self.__bytes__()), minlen=3)).decode('ascii') + '\\n'
+        out += '-----END PGP ' + self.magic + '-----\\n'
+        return out
+""")
+T('C10', 'twin-str-fstring-percent', TY, _STR_BODY, """        payload = base64.b64encode(self.__bytes__()).decode()
+        payload = '\\n'.join([payload[i:i + 64] for i in range(0, len(payload), 64)])
+        headers = ''.join(['%s: %s\\n' % (k, v) for k, v in self.ascii_headers.items()])
+        crc = base64.b64encode(PGPObject.int_to_bytes(self.crc24(self.__bytes__()), 3)).decode()
+        return f'-----BEGIN PGP {self.magic}-----\\n{headers}\\n{payload}\\n={crc}\\n-----END PGP {self.magic}-----\\n'
+""")
+T('C10', 'twin-str-fstring-header-line', TY, "headers=''.join('{key}: {val}\\n'.format(key=key, val=val) for key, val in self.ascii_headers.items()),",
+  "headers=''.join(f'{name}: {value}\\n' for name, value in self.ascii_headers.items()),")
+M('C10', 'crc-over-all-but-last-octet', TY, "self.crc24(self.__bytes__()), 3)", "self.crc24(self.__bytes__()[:-1]), 3)", 'C10.2')
+M('C10', 'crc-equals-sign-dropped', TY, "                  '={crc}\\n' \\\n", "                  '{crc}\\n' \\\n", 'C10.2')
+M('C10', 'payload-of-other-export', TY, "        payload = base64.b64encode(self.__bytes__()).decode('latin-1')", "        payload = base64.b64encode(self.__bytes__()[1:]).decode('latin-1')", 'C10.2')
+M('C10', 'label-class-name', TY, "            block_type=self.magic,", "            block_type=self.__class__.__name__.upper(),", 'C10.2')
+M('C10', 'wrap-66-not-a-quantum', TY, "        payload = '\\n'.join(payload[i:(i + 64)] for i in range(0, len(payload), 64))", "        payload = '\\n'.join(payload[i:(i + 66)] for i in range(0, len(payload), 66))", 'C10.3')
+M('C10', 'reader-lines-60', TY, "(?P<body>([A-Za-z0-9+/]{1,76}={,2}(?:\\r?\\n))+)", "(?P<body>([A-Za-z0-9+/]{1,60}={,2}(?:\\r?\\n))+)", 'C10.3')
+M('C10', 'reader-no-padding', TY, "(?P<body>([A-Za-z0-9+/]{1,76}={,2}(?:\\r?\\n))+)", "(?P<body>([A-Za-z0-9+/]{1,76}(?:\\r?\\n))+)", 'C10.3')
+M('C10', 'reader-crc-group-5', TY, "^=(?P<crc>[A-Za-z0-9+/]{4})(?:\\r?\\n)", "^=(?P<crc>[A-Za-z0-9+/]{4,5})(?:\\r?\\n)", 'C10.2')
+T('C10', 'twin-regex-spelling', TY, "^=(?P<crc>[A-Za-z0-9+/]{4})(?:\\r?\\n)", "^=(?P<crc>(?:[A-Za-z0-9+/]{2}){2})(?:\\r\\n|\\n)")
+T('C10', 'twin-regex-body-spelling', TY, "(?P<body>([A-Za-z0-9+/]{1,76}={,2}(?:\\r?\\n))+)", "(?P<body>(?:[0-9A-Za-z/+]{1,76}(?:={1,2})?\\r?\\n)+)")
+
+_KEY_MAGIC = """        return '{:s} KEY BLOCK'.format('PUBLIC' if (isinstance(self._key, Public) and not isinstance(self._key, Private)) else
+                                       'PRIVATE' if isinstance(self._key, Private) else '')
+"""
+T('C10', 'twin-key-magic-if-chain', PGP, _KEY_MAGIC, """        if isinstance(self._key, Private):
+            return 'PRIVATE KEY BLOCK'
+        if isinstance(self._key, Public):
+            return 'PUBLIC KEY BLOCK'
+        return ' KEY BLOCK'
+""")
+T('C10', 'twin-key-magic-concat', PGP, _KEY_MAGIC, """        kind = ''
+        if isinstance(self._key, Private):
+            kind = 'PRIVATE'
+        elif isinstance(self._key, Public):
+            kind = 'PUBLIC'
+        return kind + ' KEY BLOCK'
+""")
+T('C10', 'twin-message-magic-ifexp', PGP, "        if self.type == 'cleartext':\n            return \"SIGNATURE\"\n        return \"MESSAGE\"",
+  "        return 'SIGNATURE' if self.type == 'cleartext' else 'MESSAGE'")
+M('C10', 'key-magic-swapped', PGP, "'PRIVATE' if isinstance(self._key, Private) else '')", "'PUBLIC' if isinstance(self._key, Private) else '')", 'C10.4',
+  more=[(PGP, "        return '{:s} KEY BLOCK'.format('PUBLIC' if (isinstance", "        return '{:s} KEY BLOCK'.format('PRIVATE' if (isinstance")])
+M('C10', 'key-magic-private-as-public', PGP, "'PUBLIC' if (isinstance(self._key, Public) and not isinstance(self._key, Private)) else", "'PUBLIC' if isinstance(self._key, Public) else", 'C10.4')
+M('C10', 'signature-label-lowercase', PGP, "    def magic(self):\n        return \"SIGNATURE\"", "    def magic(self):\n        return \"Signature\"", 'C10.4')
+
+_SIG_CHECK = "        if unarmored['magic'] is not None and unarmored['magic'] != 'SIGNATURE':\n            raise ValueError('Expected: SIGNATURE. Got: {}'.format(str(unarmored['magic'])))\n"
+_MSG_CHECK = "        if unarmored['magic'] is not None and unarmored['magic'] not in ['MESSAGE', 'SIGNATURE']:\n            raise ValueError('Expected: MESSAGE. Got: {}'.format(str(unarmored['magic'])))\n"
+_KEY_CHECK = "        if unarmored['magic'] is not None and 'KEY' not in unarmored['magic']:\n            raise ValueError('Expected: KEY. Got: {}'.format(str(unarmored['magic'])))\n"
+T('C10', 'twin-kind-checks-local-demorgan-tuple', PGP, _SIG_CHECK,
+  "        magic = unarmored['magic']\n        if not (magic is None or magic == 'SIGNATURE'):\n            raise ValueError('Expected: SIGNATURE. Got: {}'.format(str(magic)))\n",
+  more=[(PGP, "class PGPMessage(Armorable, PGPObject):\n", "class PGPMessage(Armorable, PGPObject):\n    _armor_kinds = ('MESSAGE', 'SIGNATURE')\n\n"),
+        (PGP, _MSG_CHECK, "        magic = unarmored['magic']\n        if magic is not None and magic not in self._armor_kinds:\n            raise ValueError('Expected: MESSAGE. Got: {}'.format(str(magic)))\n"),
+        (PGP, "        # cleartext signature\n        if unarmored['magic'] == 'SIGNATURE':", "        # cleartext signature\n        if magic == 'SIGNATURE':"),
+        (PGP, _KEY_CHECK, "        magic = unarmored['magic']\n        if magic is not None and 'KEY' not in magic:\n            raise ValueError('Expected: KEY. Got: {}'.format(str(magic)))\n")])
+T('C10', 'twin-kind-checks-nested-if-set', PGP, _SIG_CHECK,
+  "        if unarmored['magic'] is not None:\n            if not unarmored['magic'] == 'SIGNATURE':\n                raise ValueError('Expected: SIGNATURE. Got: {}'.format(str(unarmored['magic'])))\n",
+  more=[(PGP, _MSG_CHECK, "        label = unarmored['magic']\n        if label is None or label in {'MESSAGE', 'SIGNATURE'}:\n            pass\n        else:\n            raise ValueError('Expected: MESSAGE. Got: {}'.format(str(label)))\n"),
+        (PGP, _KEY_CHECK, "        if unarmored['magic'] is not None and unarmored['magic'].find('KEY') < 0:\n            raise ValueError('Expected: KEY. Got: {}'.format(str(unarmored['magic'])))\n")])
+T('C10', 'twin-message-parse-generator-helper', PGP, "    def parse(self, packet):\n        unarmored = self.ascii_unarmor(packet)\n        data = unarmored['body']\n\n        if unarmored['magic'] is not None and unarmored['magic'] not in ['MESSAGE', 'SIGNATURE']:",
+  "    @staticmethod\n    def _iter_packets(data):\n        while len(data) > 0:\n            yield Packet(data)\n\n    def parse(self, packet):\n        unarmored = self.ascii_unarmor(packet)\n        data = unarmored['body']\n\n        if unarmored['magic'] is not None and unarmored['magic'] not in ['MESSAGE', 'SIGNATURE']:",
+  more=[(PGP, "            while len(data) > 0:\n                pkt = Packet(data)\n                if not isinstance(pkt, Signature):  # pragma: no cover", "            for pkt in self._iter_packets(data):\n                if not isinstance(pkt, Signature):  # pragma: no cover"),
+        (PGP, "        else:\n            while len(data) > 0:\n                self |= Packet(data)\n", "        else:\n            for pkt in self._iter_packets(data):\n                self |= pkt\n")])
+M('C10', 'sig-kind-check-or', PGP, "        if unarmored['magic'] is not None and unarmored['magic'] != 'SIGNATURE':", "        if unarmored['magic'] is None or unarmored['magic'] != 'SIGNATURE':", 'C10.5')
+M('C10', 'sig-kind-check-after-packet', PGP, _SIG_CHECK + "\n        if unarmored['headers'] is not None:\n            self.ascii_headers = unarmored['headers']\n\n        # load *one* packet from data\n        pkt = Packet(data)\n",
+  "        if unarmored['headers'] is not None:\n            self.ascii_headers = unarmored['headers']\n\n        # load *one* packet from data\n        pkt = Packet(data)\n" + _SIG_CHECK, 'C10.5')
+M('C10', 'msg-kind-check-accepts-private-key', PGP, "unarmored['magic'] not in ['MESSAGE', 'SIGNATURE']:", "unarmored['magic'] not in ['MESSAGE', 'SIGNATURE', 'PRIVATE KEY BLOCK']:", 'C10.5')
+M('C10', 'msg-kind-check-drops-signature', PGP, "unarmored['magic'] not in ['MESSAGE', 'SIGNATURE']:", "unarmored['magic'] not in ['MESSAGE']:", 'C10.5')
+M('C10', 'key-kind-check-typeerror', PGP, "            raise ValueError('Expected: KEY. Got: {}'.format(str(unarmored['magic'])))", "            raise TypeError('Expected: KEY. Got: {}'.format(str(unarmored['magic'])))", 'C10.5')
+M('C10', 'key-kind-check-only-warns', PGP, "            raise ValueError('Expected: KEY. Got: {}'.format(str(unarmored['magic'])))", "            warnings.warn('Expected: KEY. Got: {}'.format(str(unarmored['magic'])))", 'C10.5')
+M('C10', 'key-kind-check-accepts-anything-with-e', PGP, "'KEY' not in unarmored['magic']:", "'E' not in unarmored['magic']:", 'C10.5')
+M('C10', 'cleartext-fallback-empty', PGP, "            self |= self.dash_unescape(unarmored['cleartext'])", "            self |= self.dash_unescape(unarmored['cleartext'] or '')", 'C10.5')
+
+_UNARMOR_TAIL = """        m = Armorable.__armor_regex.search(text)
+
+        if m is None:  # pragma: no cover
+            raise ValueError("Expected: ASCII-armored PGP data")
+
+        m = m.groupdict()
+
+        if m['hashes'] is not None:
+            m['hashes'] = m['hashes'].split(',')
+
+        if m['headers'] is not None:
+            m['headers'] = collections.OrderedDict(re.findall('^(?P<key>.+): (?P<value>.+)$\\n?', m['headers'], flags=re.MULTILINE))
+
+        if m['body'] is not None:
+            try:
+                m['body'] = bytearray(base64.b64decode(m['body'].encode()))
+
+            except (binascii.Error, TypeError) as ex:
+                raise PGPError(str(ex)) from ex
+
+        if m['crc'] is not None:
+            m['crc'] = Header.bytes_to_int(base64.b64decode(m['crc'].encode()))
+            if Armorable.crc24(m['body']) != m['crc']:
+                warnings.warn('Incorrect crc24', stacklevel=3)
+
+        return m
+"""
+T('C10', 'twin-unarmor-split-names-temporaries', TY, _UNARMOR_TAIL, """        match = Armorable.__armor_regex.search(text)
+
+        if match is None:  # pragma: no cover
+            raise ValueError("Expected: ASCII-armored PGP data")
+
+        fields = match.groupdict()
+
+        hashes = fields['hashes']
+        if hashes is not None:
+            fields['hashes'] = hashes.split(',')
+
+        headers = fields['headers']
+        if headers is not None:
+            fields['headers'] = collections.OrderedDict(Armorable.__armor_header_regex.findall(headers))
+
+        body = fields['body']
+        if body is not None:
+            try:
+                body = bytearray(base64.b64decode(body.encode()))
+
+            except (binascii.Error, TypeError) as ex:
+                raise PGPError(str(ex)) from ex
+
+            fields['body'] = body
+
+        crc = fields['crc']
+        if crc is not None:
+            expected = Header.bytes_to_int(base64.b64decode(crc.encode()))
+            fields['crc'] = expected
+            if Armorable.crc24(body) != expected:
+                warnings.warn('Incorrect crc24', stacklevel=3)
+
+        return fields
+""", more=[(TY, "    @property\n    def charset(self):", "    __armor_header_regex = re.compile('^(?P<key>.+): (?P<value>.+)$\\n?', flags=re.MULTILINE)\n\n    @property\n    def charset(self):")])
+T('C10', 'twin-unarmor-swapped-compare-else', TY, "            if Armorable.crc24(m['body']) != m['crc']:\n                warnings.warn('Incorrect crc24', stacklevel=3)",
+  "            if m['crc'] == Armorable.crc24(m['body']):\n                pass\n            else:\n                warnings.warn('Incorrect crc24', stacklevel=3)")
+T('C10', 'twin-unarmor-early-return-no-crc', TY, "        if m['crc'] is not None:\n            m['crc'] = Header.bytes_to_int(base64.b64decode(m['crc'].encode()))\n            if Armorable.crc24(m['body']) != m['crc']:\n                warnings.warn('Incorrect crc24', stacklevel=3)\n\n        return m",
+  "        if m['crc'] is None:\n            return m\n\n        m['crc'] = int.from_bytes(base64.b64decode(m['crc'].encode('ascii')), 'big')\n        mismatch = Armorable.crc24(m['body']) != m['crc']\n        if mismatch:\n            warnings.warn('Incorrect crc24', stacklevel=3)\n\n        return m")
+M('C10', 'crc-compared-undecoded', TY, "            m['crc'] = Header.bytes_to_int(base64.b64decode(m['crc'].encode()))\n            if Armorable.crc24(m['body']) != m['crc']:",
+  "            if Armorable.crc24(m['body']) != m['crc']:", 'C10.6')
+M('C10', 'crc-of-the-crc-line', TY, "            if Armorable.crc24(m['body']) != m['crc']:", "            if Armorable.crc24(base64.b64decode(m['crc'] if False else 'AAAA')) != m['crc']:", 'C10.6')
+M('C10', 'crc-warn-in-else', TY, "            if Armorable.crc24(m['body']) != m['crc']:\n                warnings.warn('Incorrect crc24', stacklevel=3)",
+  "            if Armorable.crc24(m['body']) != m['crc']:\n                pass\n            else:\n                warnings.warn('Incorrect crc24', stacklevel=3)", 'C10.6')
+M('C10', 'crc-checked-only-with-headers', TY, "            if Armorable.crc24(m['body']) != m['crc']:", "            if m['headers'] is not None and Armorable.crc24(m['body']) != m['crc']:", 'C10.6')
+M('C10', 'body-not-decoded', TY, "                m['body'] = bytearray(base64.b64decode(m['body'].encode()))", "                m['body'] = bytearray(m['body'].encode())", 'C10.6')
+M('C10', 'is-armor-match', TY, "        return Armorable.__armor_regex.search(text) is not None", "        return Armorable.__armor_regex.match(text) is not None", 'C10.7')
+M('C10', 'header-reader-sep-no-space', TY, "re.findall('^(?P<key>.+): (?P<value>.+)$\\n?', m['headers'], flags=re.MULTILINE)", "re.findall('^(?P<key>.+):(?P<value>.+)$\\n?', m['headers'], flags=re.MULTILINE)", 'C10.7')
+M('C10', 'end-label-not-tied', TY, "^-{5}END\\ PGP\\ (?P=magic)-{5}(?:\\r?\\n)?", "^-{5}END\\ PGP\\ [A-Z0-9 ,]+-{5}(?:\\r?\\n)?", 'C10.7')
+
 # =============================================================================================== C11
 M('C11', 'escape-two-spaces', PGP, "        return re.subn(r'^-', '- -', text, flags=re.MULTILINE)[0]", "        return re.subn(r'^-', '-  -', text, flags=re.MULTILINE)[0]", 'C11.1')
 M('C11', 'unescape-no-multiline', PGP, "        return re.subn(r'^- ', '', text, flags=re.MULTILINE)[0]", "        return re.subn(r'^- ', '', text)[0]", 'C11.1')
